@@ -327,6 +327,7 @@ func runC08(c *Ctx) {
 	}
 	if np != nil {
 		// NewParameter stores its arguments unchanged
+		usedNP := map[*ssa.Parameter]string{}
 		n := 0
 		for _, b := range np.Blocks {
 			for _, in := range b.Instrs {
@@ -340,7 +341,7 @@ func runC08(c *Ctx) {
 				}
 				n++
 				p, isParam := st.Val.(*ssa.Parameter)
-				R.Check(isParam && p.Name() == fr.Name, "C08.R1", "NewParameter:"+fr.Name+"-unchanged", c.at(st), "a Parameter holds exactly the value, format and type map it was built with", "field "+fr.Name+" = parameter "+fr.Name, "Parameter."+fr.Name+" is not the constructor argument itself (copied / transformed): empty and NULL values or the bytes can change")
+				R.Check(isParam && ctorParam(usedNP, p, st), "C08.R1", "NewParameter:"+fr.Name+"-unchanged", c.at(st), "a Parameter holds exactly the value, format and type map it was built with", "field "+fr.Name+" = parameter "+fr.Name, "Parameter."+fr.Name+" is not the constructor argument itself (copied / transformed): empty and NULL values or the bytes can change")
 			}
 		}
 		R.Floor("C08.R1", "field initialisations in NewParameter", n, 3)
@@ -888,6 +889,7 @@ func (c *Ctx) c08ResultFormats() {
 		}
 	}
 	// Portal.formats <- Bind's formats parameter (C07.R2 guarantees construct-only)
+	usedPortal := map[*ssa.Parameter]string{}
 	if bind := c.P.Method("wire", "DefaultPortalCache", "Bind"); bind != nil {
 		for _, b := range bind.Blocks {
 			for _, in := range b.Instrs {
@@ -897,13 +899,13 @@ func (c *Ctx) c08ResultFormats() {
 				}
 				if fr, ok := core.FieldOfAddr(st.Addr); ok && fr.Is(pkWire, "Portal", fr.Name) {
 					p, isParam := st.Val.(*ssa.Parameter)
-					want := map[string]string{"statement": "stmt", "parameters": "parameters", "formats": "formats"}[fr.Name]
-					R.Check(isParam && p.Name() == want, "C08.R4", "Bind:portal-keeps:"+fr.Name, c.at(st), "the portal keeps the Bind's "+fr.Name+" unchanged", "Portal."+fr.Name+" = parameter "+want, "Portal."+fr.Name+" is not the Bind argument itself")
+					R.Check(isParam && ctorParam(usedPortal, p, st), "C08.R4", "Bind:portal-keeps:"+fr.Name, c.at(st), "the portal keeps the Bind's "+fr.Name+" unchanged", "Portal."+fr.Name+" = the Bind argument of that type", "Portal."+fr.Name+" is not the Bind argument itself")
 				}
 			}
 		}
 	}
 	// NewDataWriter -> dataWriter.formats / columns; Row / Define use them
+	usedDW := map[*ssa.Parameter]string{}
 	if ndw := c.P.Func("wire", "NewDataWriter"); ndw != nil {
 		for _, b := range ndw.Blocks {
 			for _, in := range b.Instrs {
@@ -913,8 +915,7 @@ func (c *Ctx) c08ResultFormats() {
 				}
 				if fr, ok := core.FieldOfAddr(st.Addr); ok && fr.Is(pkWire, "dataWriter", fr.Name) {
 					p, isParam := st.Val.(*ssa.Parameter)
-					want := map[string]string{"ctx": "ctx", "columns": "columns", "formats": "formats", "client": "writer", "reader": "reader"}[fr.Name]
-					R.Check(isParam && p.Name() == want, "C08.R4", "NewDataWriter:"+fr.Name, c.at(st), "the result writer keeps the "+fr.Name+" it was created with", "dataWriter."+fr.Name+" = parameter "+want, "dataWriter."+fr.Name+" is not the constructor argument itself")
+					R.Check(isParam && ctorParam(usedDW, p, st), "C08.R4", "NewDataWriter:"+fr.Name, c.at(st), "the result writer keeps the "+fr.Name+" it was created with", "dataWriter."+fr.Name+" = the constructor argument of that type", "dataWriter."+fr.Name+" is not the constructor argument itself")
 				}
 			}
 		}
@@ -1194,4 +1195,22 @@ func (c *Ctx) helperSizeArg(v ssa.Value) ssa.Value {
 		}
 	}
 	return nil
+}
+
+// ctorParam: a constructor stores parameter p into the field written by st unchanged - the parameter has exactly the
+// field's type and no other field of the object takes the same parameter (fields and parameters may be named freely).
+func ctorParam(used map[*ssa.Parameter]string, p *ssa.Parameter, st *ssa.Store) bool {
+	fr, ok := core.FieldOfAddr(st.Addr)
+	if !ok || p == nil {
+		return false
+	}
+	pt, ok := st.Addr.Type().Underlying().(*types.Pointer)
+	if !ok || !types.Identical(pt.Elem(), p.Type()) {
+		return false
+	}
+	if prev, taken := used[p]; taken && prev != fr.Name {
+		return false
+	}
+	used[p] = fr.Name
+	return true
 }
